@@ -214,6 +214,10 @@ class Repo:
         # summaries by inlining: private helpers are folded into their callers before any rule looks at a function
         from .inline import inline_private_helpers
         self.inlined = inline_private_helpers(self)
+        # classes whose `==` builds an object instead of answering a question (see sa/miniint.py)
+        from . import miniint
+        miniint.EQ_OBJECT_KINDS = {c.name for c in self.all_classes() if "__eq__" in c.methods
+                                   and any(isinstance(r, ast.Return) and isinstance(r.value, ast.Call) for r in ast.walk(c.methods["__eq__"]))}
         if self.inlined:
             for m in self.modules.values():
                 set_parents(m.tree)
